@@ -348,6 +348,7 @@ func (a *analysis) checkFunction(fi *fnInfo, out *[]finding) (nSites int) {
 	a.tok3(fi, add)
 	a.cnt1(fi, add)
 	a.tok1(fi, add)
+	a.tok4(fi, add)
 	a.sticky(fi, sticky, add)
 	return nSites
 }
